@@ -184,9 +184,16 @@ var verif_ghost struct {
 	gHMLastEmpty bool            // ... and whether it was empty
 	gHMLastStore *NomsBlockStore // the generation the most recent query was made on
 	gHMGhost     bool            // the ghost generation has been queried
-	mSpecsOK     bool            // checkNewSpecsPresent accepted (upstream, contents): every newly named table file is in the directory
-	mSpecsUp     hash.Hash       // lock of the upstream contents that check was made against
-	mSpecsNew    hash.Hash       // lock of the new contents that check was made for
+
+	// generational single read (GenerationalNBS.Get): the chain of single reads
+	gGetCount     int             // single reads made so far
+	gGetLastEmpty bool            // the most recent one found nothing
+	gGetLastHash  hash.Hash       // the address the most recent result carries
+	gGetLastStore *NomsBlockStore // the generation the most recent read was made on
+	gGetGhost     bool            // the ghost generation has been read
+	mSpecsOK      bool            // checkNewSpecsPresent accepted (upstream, contents): every newly named table file is in the directory
+	mSpecsUp      hash.Hash       // lock of the upstream contents that check was made against
+	mSpecsNew     hash.Hash       // lock of the new contents that check was made for
 
 	// root commit through a manifest (NomsBlockStore.updateManifest / ChunkJournal.Update)
 	uCalled        bool      // manifest.Update was invoked
